@@ -78,7 +78,9 @@ def preset(pid, tier):
             tour=aol(Accts=S(['a1', 'a2']), Topics=S(['t1']), ViewTopics=S(['t1']), FeePayers=S(['none', 'a1']), MaxDeliver=4 if q else 5, MaxHeight=2),
             sims=[sim(aol(Accts=S(['a1', 'a2', 'a3', 'a4']), Topics=S(['t1', 't2', 't3']), ViewTopics=S(['t1', 't2', 't3']), RecKeys=S(['k1', 'k2', '']), RecVals=S(['v1', 'v2', '']),
                           FeePayers=S(['none', 'a1', 'a3']), MaxDeliver=40, MaxHeight=8, NextKinds=ALL_NEXT_R, FailKeep=40), 120 if q else 2000, 50),
-                  sim(aol(MaxDeliver=12, MaxHeight=6, NextKinds=ALL_NEXT, FailKeep=10), 80 if q else 1500, 25, genesis=dict(mint=True))])
+                  sim(aol(MaxDeliver=12, MaxHeight=6, NextKinds=ALL_NEXT, FailKeep=10), 80 if q else 1500, 25, genesis=dict(mint=True)),
+                  # account a2 spells its address in upper case in every message field (owner, writer, fee payer): the same account
+                  sim(aol(FeePayers=S(['none', 'a2']), MaxDeliver=14, MaxHeight=5, NextKinds=ALL_NEXT, FailKeep=10), 30 if q else 500, 25, genesis=dict(upper=['a2']))])
     if pid == 'C02':
         return dict(
             mc=aol(Topics=S(['t1']), ViewTopics=S(['t1']), RecVals=S(['v1']), SignerSets='all', FeePayers=S(['none', 'a1', 'a2']), MaxDeliver=4 if q else 5,
@@ -182,6 +184,8 @@ def preset(pid, tier):
                    MaxDeliver=12, MaxHeight=4, NextKinds=ALL_NEXT, FailKeep=20)
         return dict(mc=mcc, props=props, invs=invs, tour=tourc,
                     sims=[sim(simc, 150 if q else 3000, 60), sim(hostile, 40 if q else 600, 30), sim(pair1, 50 if q else 800, 40), sim(pair2, 30 if q else 500, 40),
+                          # account a2 spells its address in upper case (a legal bech32 spelling of the same address) in every message field
+                          sim(pair1, 30 if q else 500, 40, genesis=dict(upper=['a2'])),
                           sim(bulkp, 10 if q else 120, 25, genesis=dict(bulk=150))], mc_timeout=2400)
     if pid == 'C07':
         mcc = burn(MaxDeliver=3 if q else 5, MaxHeight=5, GovAmts=S([5]), NextKinds=S(['BeginBlock', 'GovSchedule']))      # thorough: 661k states / 9.2M transitions
